@@ -34,6 +34,7 @@ ALL_FAMILIES = [
     "inter", "star", "slash", "power", "group", "group_slope", "group_cat",
     "group_inter_factor", "group_multi_factor", "group_transform", "group_box",
     "resp_level", "resp_prop", "resp_cat", "resp_none", "nointercept", "extra", "dotted", "onelevel", "npwarn",
+    "paren", "minus", "catcall", "nestedbox", "knots",
 ]
 
 
@@ -237,7 +238,8 @@ class Gen:
                                 (f"I(1 / ({v2} - {v2}))", [v2])])
             return Item(t, used, fams=["npwarn"])
         if kind == "dotted":
-            return Item(r.choice([f"tools.f({v})", f"tools.sub.g({v})", f"center(tools.f({v}))"]), [v],
+            return Item(r.choice([f"tools.f({v})", f"tools.sub.g({v})", f"center(tools.f({v}))",
+                                  f"tools.sub.deep.er.h({v})"]), [v],
                         fams=["dotted"])
         if kind == "extra":
             return Item(r.choice([f"I({v} * ec)", f"center({v} + ec)"]), [v], fams=["extra"])
@@ -250,6 +252,8 @@ class Gen:
             degree = r.choice([0, 1, 2, 3, 3])
             df = r.randint(max(3, degree + 1), 8)
             form = r.choice(["df", "df_degree", "pos", "intercept", "bounds"])
+            if "knots" in fam and r.random() < 0.3:
+                return Item(f"bs({v}, knots=kn_{v})", [v], fams=["bs", "knots"])
             if form == "bounds":
                 return Item(f"bs({v}, df={max(df, 4)}, lower_bound=-2000, upper_bound=2000.5)", [v], fams=["bs"])
             if form == "df":
@@ -309,11 +313,23 @@ class Gen:
             opts += [("box_ordered", 1)]
         if "onelevel" in fam:
             opts += [("onelevel", 1)]
+        if "catcall" in fam:
+            opts += [("catcall", 2)]
+        if "nestedbox" in fam:
+            opts += [("nestedbox", 1)]
         if not opts:
             opts = [("str", 1)]
         kind = r.choices([o[0] for o in opts], [o[1] for o in opts])[0]
         if kind == "onelevel":
             return Item("f1", ["f1"], cats=["f1"], fams=["onelevel"])
+        if kind == "catcall":
+            # a call whose result is a plain categorical (string) column, not a C()/T()/S() box
+            v = r.choice([c for c in STR_COLS if c not in avoid] or STR_COLS)
+            return Item(r.choice([f"I({v})", f"ucat({v})"]), [v], cats=[v], fams=["catcall"])
+        if kind == "nestedbox":
+            t, v = r.choice([("C(T(k, ref=2))", "k"), ("C(C(k), Sum)", "k"), ("C(S(f), Treatment)", "f"),
+                             ("C(T(f, ref='Fb'), levels=lvf)", "f")])
+            return Item(t, [v], cats=[v], fams=["box", "nestedbox"])
         if kind == "str":
             cand = [c for c in STR_COLS if c not in avoid] or STR_COLS
             v = r.choice(cand)
@@ -350,6 +366,10 @@ class Gen:
             opts += [("slash", 2)]
         if "power" in fam:
             opts += [("power", 1)]
+        if "paren" in fam:
+            opts += [("paren", 2)]
+        if "minus" in fam:
+            opts += [("minus", 1)]
         if "offset" in fam:
             opts += [("offset", 1)]
         if "binary" in fam:
@@ -408,6 +428,30 @@ class Gen:
             if b.used & a.used:
                 return self._join(":", a, c, ["inter"])
             return self._join(":", self._join(":", a, b, ["inter"]), c, ["inter"])
+        if kind == "paren":
+            # an operator applied to a parenthesised sum: the Model-level operator methods
+            a = self.cat_atom(fam)
+            b = self.cat_atom(fam, avoid=a.used)
+            c = self.num_atom(fam)
+            if b.used & a.used:
+                b = self.num_atom(fam)
+            if b.text == c.text or (b.used & a.used):
+                return a
+            op = r.choice([":", "*", "/"])
+            sep = ":" if op == ":" else f" {op} "
+            if r.random() < 0.5:
+                text = f"{a.text}{sep}({b.text} + {c.text})"
+            else:
+                text = f"({a.text} + {b.text}){sep}{c.text}"
+            return Item(text, a.used | b.used | c.used, a.cats | b.cats | c.cats, a.fams | b.fams | c.fams | {"paren"})
+        if kind == "minus":
+            a = self.cat_atom(fam)
+            b = self.cat_atom(fam, avoid=a.used) if r.random() < 0.5 else self.num_atom(fam)
+            if b.used & a.used:
+                return a
+            text = r.choice([f"{a.text} * {b.text} - {a.text}:{b.text}", f"{a.text} + {b.text} - {b.text}",
+                             f"({a.text} + {b.text}) ** 2 - {a.text}"])
+            return Item(text, a.used | b.used, a.cats | b.cats, a.fams | b.fams | {"minus"})
         if kind == "slash":
             a = self.cat_atom(fam)
             b = self.cat_atom(fam, avoid=a.used) if r.random() < 0.5 else self.num_atom(fam)
@@ -466,7 +510,7 @@ class Gen:
             etext = "1"
         elif ek in ("num", "0+num"):
             v = r.choice(NUM_COLS)
-            etext = v if ek == "num" else f"0 + {v}"
+            etext = v if ek == "num" else r.choice([f"0 + {v}", f"1 + {v}", f"0 + 1 + {v}", f"-1 + {v}"])
             used.add(v)
             fams.add("group_slope")
         elif ek == "num+num":
